@@ -439,7 +439,8 @@ Model generate(sim::Rng& rng, const GenOptions& opt) {
       int j = (int)rng.below(nv);
       if (used.count(j)) continue;
       used.insert(j);
-      double coef = opt.tag_objectives ? (double)(20000 * (i + 1) + j) : (double)(50 * (i + 1) + j + 1);
+      // tags that small-integer arithmetic does not produce by accident (40000 = 2*2000*10 turned up as the cross term of a square)
+      double coef = opt.tag_objectives ? (double)(20000 * (i + 1) + 11 + 2 * j) : (double)(50 * (i + 1) + j + 1);
       if (!opt.tag_objectives && rng.chance(0.3)) coef = -coef;
       add_lin(o.lin, j, coef);
       o.tags.push_back(coef);
@@ -451,7 +452,7 @@ Model generate(sim::Rng& rng, const GenOptions& opt) {
     if (want_nl) {
       o.has_nl = true;
       c.nl_vars = obj_nl_vars; c.ncommon_avail = commons_in_objs ? (int)m.commons.size() : 0;
-      double t = opt.tag_objectives ? 700000.0 + 1000.0 * i : c.tag();   // far apart: derived bounds (tag +- small) must not collide
+      double t = opt.tag_objectives ? 700001.0 + 1000.0 * i : c.tag();   // far apart: derived bounds (tag +- small) must not collide
       Expr body;
       if (opt.tag_objectives) {
         // shapes whose tag constant survives flattening
